@@ -451,4 +451,201 @@ theorem splitPre_none_url (sch rest : Str)
     exact List.drop_left' (by simp)
   rw [e, hss]
 
+/-! ## `ParseLocalSource` -/
+
+/-- the canonical form `ParseLocalSource` compares its argument with -/
+def canonLocal (given : Str) : Str :=
+  let clean0 := pathClean given
+  let clean1 := if clean0 = dotdot then ['.', '.', '/'] else if clean0 = dot then ['.', '/'] else clean0
+  if !looksLikeLocal clean1 then '.' :: '/' :: clean1 else clean1
+
+theorem parseLocal_eq (given : Str) : parseLocal given =
+    if given.any (fun c => c = ':' || c = '\\') then none
+    else if !looksLikeLocal given && given ≠ dot && given ≠ dotdot then none
+    else if canonLocal given ≠ given then none else some (canonLocal given) := rfl
+
+theorem parseLocal_some (s a : Str) (h : parseLocal s = some a) :
+    a = s ∧ canonLocal s = s ∧ s.any (fun c => c = ':' || c = '\\') = false ∧
+      (looksLikeLocal s = true ∨ s = dot ∨ s = dotdot) := by
+  rw [parseLocal_eq] at h
+  split at h
+  · cases h
+  · rename_i h1
+    split at h
+    · cases h
+    · rename_i h2
+      split at h
+      · cases h
+      · rename_i h3
+        simp only [ne_eq, Decidable.not_not] at h3
+        cases h
+        refine ⟨h3, h3, by simpa using h1, ?_⟩
+        simp only [Bool.and_eq_true, Bool.not_eq_true', decide_eq_true_eq, not_and, ne_eq] at h2
+        cases hl : looksLikeLocal s with
+        | true => exact Or.inl rfl
+        | false =>
+          right
+          by_cases hd : s = dot
+          · exact Or.inl hd
+          · exact Or.inr (Decidable.not_not.mp (h2 ⟨hl, hd⟩))
+
+/-! ### characters of joined / split strings -/
+
+theorem mem_joinWith (sep : Char) (l : List Str) (c : Char) (h : c ∈ joinWith sep l) :
+    c = sep ∨ ∃ x ∈ l, c ∈ x := by
+  induction l with
+  | nil => simp [joinWith] at h
+  | cons s r ih =>
+    cases r with
+    | nil => exact Or.inr ⟨s, by simp, by simpa [joinWith] using h⟩
+    | cons t r' =>
+      rw [joinWith_cons_cons] at h
+      rcases List.mem_append.mp h with h | h
+      · exact Or.inr ⟨s, by simp, h⟩
+      · rcases List.mem_cons.mp h with h | h
+        · exact Or.inl h
+        · rcases ih h with h | ⟨x, hx, hc⟩
+          · exact Or.inl h
+          · exact Or.inr ⟨x, List.mem_cons_of_mem _ hx, hc⟩
+
+theorem mem_of_mem_joinWith (sep : Char) (l : List Str) (x : Str) (c : Char) (hx : x ∈ l) (hc : c ∈ x) :
+    c ∈ joinWith sep l := by
+  induction l with
+  | nil => cases hx
+  | cons s r ih =>
+    cases r with
+    | nil =>
+      simp only [List.mem_singleton] at hx
+      subst hx; simpa [joinWith] using hc
+    | cons t r' =>
+      rw [joinWith_cons_cons]
+      rcases List.mem_cons.mp hx with rfl | hx
+      · exact List.mem_append_left _ hc
+      · exact List.mem_append_right _ (List.mem_cons_of_mem _ (ih hx))
+
+theorem mem_of_mem_splitOn (sep : Char) (s x : Str) (c : Char) (hx : x ∈ splitOn sep s) (hc : c ∈ x) :
+    c ∈ s := by
+  have := mem_of_mem_joinWith sep _ x c hx hc
+  rwa [joinWith_splitOn] at this
+
+/-! ### local sources -/
+
+/-- the two characters `ParseLocalSource` rejects outright -/
+def badLocalChar (c : Char) : Bool := c = ':' || c = '\\'
+
+/-- what the local case of `ResolveRelativeSource` does with the joined path -/
+def relocalise (n : Str) : Str :=
+  if n = dot ∨ n = dotdot then n ++ ['/']
+  else if !looksLikeLocal n then '.' :: '/' :: n else n
+
+theorem resolveLocalLocal_eq (a b : Str) : resolveLocalLocal a b = relocalise (pathJoin a b) := rfl
+
+theorem looksLikeLocal_not_abs (n : Str) (h : looksLikeLocal n = true) : isAbs n = false := by
+  cases n with
+  | nil => rfl
+  | cons c r =>
+    by_cases hc : c = '/'
+    · subst hc; simp [looksLikeLocal, hasPrefix, List.isPrefixOf] at h
+    · simp [isAbs, hc]
+
+/-- a cleaned relative path, re-localised, is in the canonical form of `ParseLocalSource` -/
+theorem parseLocal_relocalise (t : Str) (habs : isAbs t = false)
+    (hbad : t.any badLocalChar = false) :
+    parseLocal (relocalise (pathClean t)) = some (relocalise (pathClean t)) := by
+  by_cases hd : pathClean t = dot
+  · rw [hd]; decide
+  by_cases hdd : pathClean t = dotdot
+  · rw [hdd]; decide
+  -- the cleaned segments
+  have hn : pathClean t = (if cleanSegs false (splitOn '/' t) = [] then dot
+      else joinWith '/' (cleanSegs false (splitOn '/' t))) := by
+    unfold pathClean; simp [habs]
+  generalize hsegs : cleanSegs false (splitOn '/' t) = segs at hn
+  have hne : segs ≠ [] := by
+    intro e; rw [e] at hn; simp only [if_true] at hn; exact hd hn
+  simp only [hne, if_false] at hn
+  have hidem : cleanSegs false segs = segs := by rw [← hsegs]; exact clean_idem false _
+  have hmem : ∀ s ∈ segs, s ∈ splitOn '/' t ∨ s = dotdot := by
+    intro s hs
+    rw [← hsegs] at hs
+    unfold cleanSegs at hs
+    rcases run_mem false _ [] s (List.mem_reverse.mp hs) with h | h | h
+    · cases h
+    · exact Or.inl h
+    · exact Or.inr h
+  have hnoslash : ∀ s ∈ segs, '/' ∉ s := by
+    intro s hs
+    rcases hmem s hs with h | h
+    · exact splitOn_noSep '/' t s h
+    · rw [h]; decide
+  have hsplit : splitOn '/' (joinWith '/' segs) = segs := splitOn_joinWith '/' segs hne hnoslash
+  have hchars : ∀ c ∈ joinWith '/' segs, badLocalChar c = false := by
+    intro c hc
+    rcases mem_joinWith '/' segs c hc with rfl | ⟨x, hx, hcx⟩
+    · decide
+    · rcases hmem x hx with h | h
+      · have := mem_of_mem_splitOn '/' t x c h hcx
+        simp only [List.any_eq_false] at hbad
+        simpa using hbad c this
+      · rw [h] at hcx
+        simp only [dotdot, List.mem_cons, List.not_mem_nil, or_false, or_self] at hcx
+        subst hcx; decide
+  rw [hn] at hd hdd ⊢
+  generalize hjn : joinWith '/' segs = n at *
+  -- cleaning `n` or `./n` gives `n` back
+  have hclean1 : isAbs n = false → pathClean n = n := by
+    intro h
+    unfold pathClean
+    simp only [h, Bool.false_eq_true, if_false, hsplit, hidem, hne, hjn]
+  have hclean2 : pathClean ('.' :: '/' :: n) = n := by
+    have e : splitOn '/' ('.' :: '/' :: n) = dot :: segs := by
+      have := splitOn_append '/' ['.'] n
+      simp only [List.cons_append, List.nil_append] at this
+      rw [this, hsplit]; rfl
+    have e2 : cleanSegs false (dot :: segs) = segs := by
+      have : cleanSegs false (dot :: segs) = cleanSegs false segs := by
+        unfold cleanSegs; rw [run_cons]; simp [step]
+      rw [this, hidem]
+    unfold pathClean
+    have : isAbs ('.' :: '/' :: n) = false := by simp [isAbs]
+    simp only [this, Bool.false_eq_true, if_false, e, e2, hne, hjn]
+  have hany : n.any badLocalChar = false := by
+    simp only [List.any_eq_false]
+    intro c hc; simp [hchars c hc]
+  have hd' : ¬(n = dot ∨ n = dotdot) := fun h => h.elim hd hdd
+  unfold relocalise
+  simp only [hd', if_false]
+  cases hl : looksLikeLocal n with
+  | true =>
+    simp only [Bool.not_true, Bool.false_eq_true, if_false]
+    rw [parseLocal_eq]
+    have hc : canonLocal n = n := by
+      unfold canonLocal
+      simp only [hclean1 (looksLikeLocal_not_abs n hl), hd, hdd, if_false, hl, Bool.not_true,
+        Bool.false_eq_true]
+    have hany' : (n.any fun c => c = ':' || c = '\\') = false := hany
+    simp [hany', hl, hc]
+  | false =>
+    simp only [Bool.not_false, if_true]
+    rw [parseLocal_eq]
+    have hl2 : looksLikeLocal ('.' :: '/' :: n) = true := by
+      simp [looksLikeLocal, hasPrefix, List.isPrefixOf]
+    have hc : canonLocal ('.' :: '/' :: n) = '.' :: '/' :: n := by
+      unfold canonLocal
+      simp only [hclean2, hd, hdd, if_false, hl, Bool.not_false, if_true]
+    have hany' : (('.' :: '/' :: n).any fun c => c = ':' || c = '\\') = false := by
+      have : (('.' :: '/' :: n).any badLocalChar) = false := by
+        simp only [List.any_cons, hany]; decide
+      exact this
+    simp [hany', hl2, hc]
+
+
+theorem local_start (a : Str) (h : looksLikeLocal a = true ∨ a = dot ∨ a = dotdot) :
+    a ≠ [] ∧ isAbs a = false := by
+  rcases h with h | rfl | rfl
+  · refine ⟨?_, looksLikeLocal_not_abs a h⟩
+    intro e; rw [e] at h; simp [looksLikeLocal, hasPrefix, List.isPrefixOf] at h
+  · decide
+  · decide
+
 end Slug
